@@ -1,7 +1,8 @@
 ----------------------------- MODULE MC_PongoDoc -----------------------------
 EXTENDS PongoDoc, Json
 
-CONSTANTS MaxFrags, Quick, Layout   \* Layout: TRUE = dashes and options vary (C15); FALSE = plain documents only (C06)
+CONSTANTS CtlText,   \* TRUE: literal text made of control bytes and white space (what is white space for trimming: SP TAB CR LF only)
+          MaxFrags, Quick, Layout   \* Layout: TRUE = dashes and options vary (C15); FALSE = plain documents only (C06)
 
 WS == IF Quick THEN {<<32>>, <<10>>, <<32, 10, 9>>, <<13, 10>>, <<9, 13>>}
                ELSE {<<32>>, <<9>>, <<10>>, <<13, 10>>, <<32, 10, 9, 32>>, <<10, 10>>, <<32, 32>>, <<9, 13>>}
@@ -16,7 +17,10 @@ CBodies == {<<123,37,32,99,111,109,109,101,110,116,32,37,125>>,                 
             <<123,37,32,110,111,115,117,99,104,116,97,103,32,49,32,43,32,37,125>>,                           \* {% nosuchtag 1 + %}
             <<123,123,32,49,32,43,32,125,125,123,37,32,101,108,115,101,32,37,125>>}                           \* {{ 1 + }}{% else %}
 CBodiesQ == {b \in CBodies : Len(b) \in {12, 13}}      \* (quick) the nested comment tag and the stray endif
-TextFrags == {F("ws", w, FALSE, FALSE) : w \in WS} \cup {F("text", <<97>>, FALSE, FALSE), F("text", <<97, 32, 98>>, FALSE, FALSE)}
+TextFrags == IF CtlText
+               THEN {F("ws", w, FALSE, FALSE) : w \in {<<32>>, <<10>>, <<9, 13>>}}
+                    \cup {F("text", b, FALSE, FALSE) : b \in {<<1>>, <<32, 1, 32>>, <<11, 32>>, <<10, 12>>, <<27, 91>>, <<0, 9>>, <<31>>, <<127, 32>>, <<194, 160>>}}
+               ELSE {F("ws", w, FALSE, FALSE) : w \in WS} \cup {F("text", <<97>>, FALSE, FALSE), F("text", <<97, 32, 98>>, FALSE, FALSE)}
 DB == IF Layout THEN B ELSE {FALSE}
 Constructs == {F(k, <<>>, l, r) : k \in {"var", "set", "ifopen", "ifclose"}, l \in DB, r \in DB}
           \cup {F("ttag", <<>>, FALSE, FALSE), F("ctag", CBodyZ, FALSE, FALSE)} \cup (IF Layout THEN {F("ctag", CBodyZ, FALSE, TRUE)} ELSE {F("ctag", cb, FALSE, FALSE) : cb \in (IF Quick THEN CBodiesQ ELSE CBodies)})
